@@ -279,6 +279,29 @@ def rule_D_dead(toks, au):
                     del toks[i:k + 1]
                     changed = True
                     continue
+                # if C { } else { }  with both blocks empty and a pure condition
+                if k == j + 1 and k + 3 < len(toks) and is_id(toks[k + 1], "else") and is_p(toks[k + 2], "{") and is_p(toks[k + 3], "}") \
+                        and _pure_tokens(toks[i + 1:j]) and not (i > 0 and is_id(toks[i - 1], "else")):
+                    au.note("D", "empty if/else (only logging inside): " + render(toks[i:k + 4]))
+                    del toks[i:k + 4]
+                    changed = True
+                    continue
+            # if let PAT = EXPR { }   with an empty block, a pure scrutinee and no else
+            if is_id(toks[i], "if") and _stmt_pos(toks[:i]) and is_id(toks[i + 1], "let") and not (i > 0 and is_id(toks[i - 1], "else")):
+                try:
+                    j = _body_open(toks, i)
+                except IndexError:
+                    break
+                k = match_close(toks, j)
+                hdr = toks[i + 2:j]
+                eqp = next((q for q, x in enumerate(hdr) if is_p(x, "=") and not is_p(hdr[q + 1], "=")), None)
+                if k == j + 1 and eqp is not None and not (k + 1 < len(toks) and is_id(toks[k + 1], "else")) \
+                        and not any(is_p(x, "&") and q + 1 < len(hdr) and is_p(hdr[q + 1], "&") for q, x in enumerate(hdr)) \
+                        and _pure_tokens([x for x in hdr[eqp + 1:] if not (x.kind == "p" and x.text in ("*", "&"))]):
+                    au.note("D", "empty if-let (only logging inside): " + render(toks[i:k + 1]))
+                    del toks[i:k + 1]
+                    changed = True
+                    continue
             i += 1
         # (2) dead counters
         i = 0
